@@ -242,6 +242,9 @@ def main(argv):
     for b in res.bounded:
         if b.get('ok'):
             covered_ok |= set(b.get('covers') or [])
+    for b in res.bounded:
+        if not b.get('ok'):
+            covered_ok -= set(b.get('covers') or [])      # a tag counts as exercised-and-fine only if EVERY stand-in covering it passed
     fields0 = set(base_ms.get('__fields__') or [])
     have_ledger = any(not k.startswith('__') for k in base_ms)
     needs_contract = []
